@@ -289,18 +289,21 @@ class HistoryDomain(TagDomain):
     if dotted in ('builtins.hasattr', 'builtins.getattr', 'builtins.vars',
                   'builtins.delattr', 'builtins.setattr') and args and \
             args[0].obj is not None and args[0].obj.oid == 'self':
-      name = args[1].const() if len(args) > 1 else '*'
-      if dotted == 'builtins.vars' or not isinstance(name, str):
-        name = '*'
+      names = ['*']
+      if len(args) > 1 and dotted != 'builtins.vars' and \
+              args[1].c is not NOCONST and args[1].c and \
+              all(isinstance(x, str) for x in args[1].c):
+        names = sorted(args[1].c)      # one of finitely many literal names
       cls = args[0].obj.cls
-      is_param = name in self.eng.repo.init_params(cls) or \
-          self.eng.repo.class_attr(cls, name)[1] is not None
-      assigned = ('store', 'self', name) in self.must(st)
-      if not is_param and not assigned:
-        self.problems.append((name, '%s(self, %r) makes fit depend on state '
-                              'left by an earlier fit' % (
-                                  dotted.split('.')[1], name),
-                              self.site(node), self.cur()))
+      for name in names:
+        is_param = name in self.eng.repo.init_params(cls) or \
+            self.eng.repo.class_attr(cls, name)[1] is not None
+        assigned = ('store', 'self', name) in self.must(st)
+        if not is_param and not assigned:
+          self.problems.append((name, '%s(self, %r) makes fit depend on '
+                                'state left by an earlier fit' % (
+                                    dotted.split('.')[1], name),
+                                self.site(node), self.cur()))
     # callbacks handed to library optimisers run in this state
     for v in list(args) + list(kwargs.values()):
       if v.fn is not None and v.fn[0] in ('repo', 'closure'):
